@@ -286,28 +286,39 @@ class C08(Check):
     drv_shard_min = 200          # a model line replays two or three whole requests: shard early
     design_ref = '6/C08'
     level_category = 'proof'
-    level_text = ('Lean theorem one_app_noninterference over the step model of ts_props / HeaderDict._ts and of a served '
-                  'request: for one application, any number of threads, arbitrary (adaptive) handler programs and every '
-                  'interleaving (unbounded list of thread ids) each thread reads and produces exactly what it does alone; '
-                  'the model is tied to the code by schedule-controlled runs of real threads (baton + sys.settrace, line '
-                  'granularity). Proof of the model + schedule-controlled correspondence; partial for thread switches '
-                  'inside one source line.')
+    level_text = ('Lean theorem one_app_noninterference over the step model of ts_props / HeaderDict._ts, of a served '
+                  'request (wsgi, _handle, hooks, handler, _cast incl. HTML/JSON/debug/custom error pages, headerlist) and of '
+                  'the shared HTTPError objects of errors_map: for one application, any number of threads, arbitrary '
+                  '(adaptive) handler programs and every interleaving (unbounded list of thread ids) each thread reads and '
+                  'produces exactly what it does alone; served_requests_serve shows the hypothesis for every request '
+                  'program the driver runs. Tied to the code by schedule-controlled runs of real threads (baton + '
+                  'sys.settrace, line granularity, incl. inside the chunked / multipart body decoders). Proof of the model '
+                  '+ schedule-controlled correspondence; partial for thread switches inside one source line.')
     level_note_extra = ('partial: CPython may switch threads between bytecodes of one line; the scheduler exercises line '
-                        'boundaries only. Shared non thread-local objects touched while serving are listed by the '
-                        'extractor (Gen/Tsprops.lean tsSharedTouched) and must be read-only or idempotent.')
+                        'boundaries only. Shared non thread-local objects touched while serving are enumerated by the '
+                        'extractor (Gen/Tsprops.lean: tsSharedTouched, tsErrorsMap) and must be read-only or idempotent; '
+                        'the body decoders are covered by the scheduled runs against pristine solo references, not by '
+                        'the model (their results are data of the request there).')
     technique = 'Lean 4 proof + schedule-controlled differential correspondence'
     anchors = ['ombott/common_helpers.py', 'ombott/response.py', 'ombott/request_pkg/request.py', 'ombott/ombott.py']
-    rule = ('2-3 real threads on one fresh application, serialised by the baton scheduler; request kinds cookies, '
-            'headers, status, raised response, error page, body/form (random part and thorough: + crash, 404, 405, bad '
-            'path, empty, HEAD, 204); quick: every single preemption point of thread 1 x every ordered pair of kinds, '
-            'plus random 2-6 preemptions over 2-3 threads; each schedule is replayed in the model through the recorded '
-            'order of thread-store accesses; non-trivial = the schedule preempts at least once')
+    rule = ('2-3 real threads on one fresh application, serialised by the baton scheduler; request kinds: cookies, '
+            'headers, status, raised response, error page (HTML, JSON, debug, custom @app.error handler), crash, '
+            'requests failing onto the SAME shared errors_map object (oversized form, invalid JSON, malformed '
+            'multipart with request-specific text), urlencoded / chunked / multipart / chunked-multipart bodies with '
+            'uploads, Request.copy() with edits of the copy after header views were cached, before/after_request '
+            'hooks, 404/405/bad path/empty/HEAD/204; quick: every single preemption point of thread 1 (every k-th '
+            'line for programs over 900 lines) x ~45 ordered pairs of kinds and application configurations, plus '
+            'random 2-6 preemptions over 2-3 threads; thorough: all pairs, all points. Every thread is compared with '
+            'its request served alone in a forked child of the untouched process, and each schedule is replayed in '
+            'the model through the recorded order of thread-store accesses; non-trivial = the schedule preempts')
     assumptions = ['thread switches happen at source-line boundaries inside ombott/* and the handlers (sub-line '
                    'interleavings are not exercised; the model step is one attribute access, which is finer than a line)',
                    'the application object is constructed before the request threads start',
                    'handlers reach request and response state only through app.request / app.response',
-                   'router answer, parsed query/cookie/form values, status phrases and the error page template are data '
-                   'of the request in the model (properties C01, C02, C15, C18, C20)']
+                   'no code writes the shared HTTPError objects of errors_map (tied: generated table + probe; model '
+                   'step errSet is excluded by Prog.Serves)',
+                   'router answer, parsed query/cookie/form/upload values, status phrases and the error page templates '
+                   'are data of the request in the model (properties C01, C02, C04-C07, C15, C18, C20)']
 
     def __init__(self):
         self.stats = {}
